@@ -703,6 +703,32 @@ def driver_table(repo):
     return ids, table
 
 
+def env_prefilter(repo):
+    """What environment `CCompilerHasher::generate_hash_key` (c.rs) hands to the two key functions:
+    None = the client's whole environment (sorted); otherwise the list it is filtered by beforehand."""
+    raw = read(repo, 'src/compiler/c.rs')
+    txt = norm(item_at(raw, r'^    async\s+fn\s+generate_hash_key\s*\(', 'fn generate_hash_key'))
+    ms = []
+    for m in re.finditer(r'let mut (%s)(?::Vec<\(OsString,OsString\)>)?=env_vars(?=\.)' % ID, txt):
+        rest = split_top(txt[m.end():], ';')[0]
+        ms.append((m.group(1), rest))
+    if len(ms) != 1:
+        raise Unrecognised('generate_hash_key: expected exactly one `let mut <v> = env_vars.<..>;`, found %r' % ms)
+    var, chain = ms[0]
+    if '%s.sort();' % var not in txt:
+        raise Unrecognised('generate_hash_key: %s is not sorted' % var)
+    for fn in ('hash_key', 'preprocessor_cache_entry_hash_key'):
+        calls = re.findall(r'(?<![A-Za-z0-9_])%s\(((?:[^()]|\((?:[^()]|\([^()]*\))*\))*)\)' % fn, txt)
+        if len(calls) != 1 or ('&%s' % var) not in split_top(calls[0], ','):
+            raise Unrecognised('generate_hash_key: %s is not called exactly once with &%s: %r' % (fn, var, calls))
+    if chain == '.clone()':
+        return None
+    m = re.fullmatch(r'\.iter\(\)\.filter\(\|\((%s),_\)\|(%s)\.contains\((%s)\.as_os_str\(\)\)\)\.cloned\(\)\.collect\(\)' % (ID, ID, ID), chain)
+    if not m or m.group(1) != m.group(3):
+        raise Unrecognised('generate_hash_key: the environment is prepared in an unknown way: env_vars%s' % chain)
+    return env_allow_list(raw, m.group(2))
+
+
 EXPECTED_ENV = [('EName', 'LP'), ('ELit', b'='), ('EVal', 'LP')]
 EXPECTED_SHAPE_C = [('CDigest',), ('CPlusplus',), ('CVersion',), ('CLang',), ('CArgs', 'LP'), ('CExtra',),
                     ('CEnv', EXPECTED_ENV), ('CPP',)]
@@ -758,6 +784,11 @@ def read_spec(repo, fallback=None):
     if fallback.get('drivers') is not None and fallback.get('script_ids') is not None:
         spec['script_ids'] = fallback['script_ids']
     item('drivers', drivers, fallback.get('drivers'))
+    try:
+        spec['env_prefilter'] = env_prefilter(repo)
+    except Unrecognised as e:
+        errors.append('env_prefilter: %s' % e)
+        spec['env_prefilter'] = []          # unknown: treated as "nothing reaches the key functions"
     item('shape_c', shape_c, EXPECTED_SHAPE_C)
     item('shape_p', shape_p, EXPECTED_SHAPE_P)
     spec['time_gate'] = gate.get('g', True)
@@ -824,6 +855,10 @@ def emit(spec, gen_dir):
     txt += 'Definition the_drivers : list (bytes * bytes * bool) := [\n' + ';\n'.join(
         '  (* %s => %s *) (%s, %s, %s)' % (k, n, coq_bytes(k.encode()), coq_bytes(n.encode()), 'true' if pp else 'false')
         for k, n, pp, _ in spec['drivers']) + '\n].\n'
+    txt += '\n(* c.rs generate_hash_key: the list the client environment is filtered by BEFORE it reaches the key functions *)\n'
+    pf = spec.get('env_prefilter')
+    txt += 'Definition the_env_prefilter : option (list bytes) := %s.\n' % (
+        'None' if pf is None else 'Some [' + '; '.join(coq_bytes(v) for v in pf) + ']')
     write_if_changed(os.path.join(gen_dir, 'C02HashSpec.v'), txt)
     ok = '''(* GENERATED by translator/c02_hashspec.py -- the decidable side conditions the C02 theorems need of the
    source-derived data, each discharged by computation.  A failure here names the condition that the current
@@ -856,6 +891,10 @@ Proof. vm_compute; reflexivity. Qed.
 (* C-vs-C++ driver mode at its source: every compiler_id that ends in "++" is handled and yields plusplus() = true,
    every other one yields false *)
 Lemma the_drivers_ok : drivers_ok the_script_ids the_drivers = true.
+Proof. vm_compute; reflexivity. Qed.
+
+(* whatever generate_hash_key filters the environment by beforehand keeps every variable of both allow-lists *)
+Lemma the_prefilter_ok : prefilter_ok the_env_prefilter the_spec = true.
 Proof. vm_compute; reflexivity. Qed.
 
 Lemma the_spec_good : spec_good the_spec.
